@@ -2461,8 +2461,12 @@ impl<'input, T: Input> Scanner<'input, T> {
     fn fetch_value(&mut self) -> ScanResult {
         let sk = self.simple_keys.last().unwrap().clone();
         let start_mark = self.mark;
-        let is_implicit_flow_mapping =
-            !self.implicit_flow_mapping_states.is_empty() && !self.flow_mapping_started;
+        // (A second `:` in the same entry does not open another implicit mapping: the extra
+        // `FlowMappingStart` would pair up with a stray `}` as in `[a: : b}]`.)
+        let is_implicit_flow_mapping = matches!(
+            self.implicit_flow_mapping_states.last(),
+            Some(ImplicitMappingState::Possible)
+        ) && !self.flow_mapping_started;
         if is_implicit_flow_mapping {
             *self.implicit_flow_mapping_states.last_mut().unwrap() = ImplicitMappingState::Inside;
         }
